@@ -243,6 +243,13 @@ class ESME:
         self.correlator: AbstractCorrelator = correlator or SimpleCorrelator(self.system_id)
         self.correlator.hook = self.hook
         self.correlator.client_id = self.client_id
+        if sequence_generator is None and isinstance(self.correlator, SimpleCorrelator):
+            # A persisted correlator may still hold requests of an earlier run (unanswered, or
+            # waiting for delivery receipts for days). The default generator starts at 1 in every
+            # process: continue after their numbers, so that no new request takes one of them
+            last_sequence_num: int = self.correlator.last_sequence_num()
+            if isinstance(self.sequence_generator, SimpleSequenceGenerator) and last_sequence_num > 0:
+                self.sequence_generator.sequence_num = last_sequence_num
         self.retry_timer: AbstractRetryTimer = retry_timer or SimpleExponentialBackoff()
         self.socket_timeout: float = socket_timeout
         self.interface_version: int = SMPP_VERSION_3_4
